@@ -8,6 +8,16 @@ CLAIMS = {
         "note": "A-real; picosvg SVG parsing/normal form, SVGLinearGradient/SVGRadialGradient.from_element, Affine2D.fromstring, ufo2ft COLR builder, fontTools compile and COLRv1 rendering semantics are assumed; tree traversal and lxml-facing functions are covered by the bounded tier only.",
         "design_ref": "DESIGN.md section 4 C01",
     },
+    "C02": {
+        "text": "Partial. Discharged for all inputs: viewBox->OT-SVG affine (y down, baseline at 0, centred, user transform), <use> creation (href, x/y iff non-zero, residual matrix; lemma L-use: M o T(x,y) = reuse affine), gradient coordinate mapping (linear: three points; radial: centres mapped, radii scaled by |s| and never negative, non-uniform affines rejected). Bounded: generated source sets built as picosvg/picosvgz fonts; exactly one element glyph<ID> in the covering document, rendered by a small SVG evaluator and compared by sampling with the source specification; document structure (sorted disjoint ranges, unique ids, resolving hrefs, no cross-glyph references).",
+        "note": "lxml document assembly, reuse grouping and glyph-order reshuffle are bounded-tier only; _ntos/_svg_matrix string formatting abstracted as functions of the number/affine; SVG rendering semantics as implemented in contracts/e2e.py; A-real.",
+        "design_ref": "DESIGN.md section 4 C02",
+    },
+    "C03": {
+        "text": "Partial. _colr0_layers: one layer per PaintGlyph leaf in z-order, transformed leaves through a one-component glyph carrying the COLR-semantics accumulated transform, palette index of the non-opaque colour (finite scope over 4 tree shapes, labelled bounded); viewBox->font affine discharged for all inputs. Bounded: generated solid-fill source sets built as COLRv0 (glyf and CFF) and compared by sampling; glyf builds: every source outline placed exactly once at its source position, nothing else.",
+        "note": "ufoLib2/ufo2ft/fontTools assumed; _create_transformed_glyph assumed (checked natively through the harness).  Observation (not claimed by the statement): in a plain glyf build a mirrored reused component that overlaps another shape cancels it under non-zero winding (upstream issue #287; color_glyph._any_overlap_with_reversing_transform is dead code).",
+        "design_ref": "DESIGN.md section 4 C03",
+    },
     "C05": {
         "text": "Quantisation (edges are multiples of the step, containment within one step), the rounding/protrusion lemmas (compiled outline points protrude by at most half the transform's row sums plus 1/2) are discharged for all inputs; _bounds (None iff nothing painted, contains every placed shape after otRound, measured under the COLR-semantics accumulated transform, every leaf measured) by exhaustive symbolic execution over 6 paint-tree shapes x up to 2 roots (finite scope, labelled bounded).",
         "note": "A-real; _transformed_glyph_bounds (fontTools ControlBoundsPen/TransformPen) is an assumed contract, conformance-checked natively; A-fdiv: math.floor(v / q) on floats equals the real floor for |v| < 2^31; ufo2ft ClipList writer assumed.",
